@@ -41,13 +41,19 @@ def inherited(cls):
     return out
 
 
-def usages(g, name, a, b, c, t):
+def usages(g, name, a, b, c, t, early=None):
     """argument tuples to try for an entry point: a, b existing nodes (or new), c a node not in the graph"""
     if name == "update":
         return [("update_edges", lambda h: h.update(edges=[(a, c)])),
                 ("update_edges", lambda h: h.update(edges=[(a, b)], nodes=[c])),
                 ("update_edges", lambda h: h.update(edges=nx.Graph([(a, c)]))),
                 ("update_nodes", lambda h: h.update(nodes=[c]))]
+    if name in ("clear", "clear_edges"):
+        # also: the emptied object is used again, at an instant before everything it held (nothing may survive the clear)
+        def reuse(h):
+            getattr(h, name)()
+            h.add_interaction(a, b, early)
+        return [(name, lambda h: getattr(h, name)()), (name + "_reuse", reuse)]
     if name == "add_weighted_edges_from":
         return [(name, lambda h: h.add_weighted_edges_from([(a, c, 1.5)])), (name, lambda h: h.add_weighted_edges_from([(a, b, 2)]))]
     if name in ("add_edge", "remove_edge", "has_edge", "get_edge_data", "number_of_edges"):
@@ -115,7 +121,7 @@ def guard_lines(g, L, known, grid, rng, frozen):
     lines = []
     for name in names:
         base = "update" if name in ("update_edges", "update_nodes") else name
-        for usage, fn in usages(g, base, a, b, c, t):
+        for usage, fn in usages(g, base, a, b, c, t, L.time(grid[0] + 1)):
             if frozen and usage not in MUTATORS:
                 continue
             if name in ("update_edges", "update_nodes") and usage != name:
